@@ -125,7 +125,7 @@ def for_property(prop):
                   "(c) COTmrGetTicks over frequencies (incl. non-divisors) x times 0..65535 x both units; distinct non-trivial = distinct "
                   "explored states + random sequences + conversion sweeps")
         m.ASSUMPTIONS = ["processing follows each tick (the regime of the statement)",
-                         "deleting, from a callback, an action due in the pass in progress may be refused (then it still runs) or confirmed (then it never runs)",
+                         "deleting, from a callback, an action due in the pass in progress is confirmed and cancels it (elapsed, not yet processed)",
                          "order of callbacks within one processing step is not constrained"]
         m.work = c07_work
 
